@@ -114,6 +114,8 @@ def make_problem(rng, D, geo, mode, cons, k):
         opts["complete_poll"] = True
     if k % 7 == 5:
         opts["accelerate_mesh"] = False
+    if k % 4 == 2:
+        opts["force_poll_mesh"] = True
     con = None
     if cons:
         r = 1.5 if geo != "opt_outside" else 0.9
@@ -227,6 +229,22 @@ class Monitors:
         mon = self
         # --- C13: mesh rule around every poll step --------------------------------------------------------
         orig_poll = BADS._poll_step_
+        orig_pm = bads_mod.poll_mads_2n
+        last_B = {}
+
+        def pm(dim_x, poll_scale, search_mesh_size, mesh_size):
+            Bn = orig_pm(dim_x, poll_scale, search_mesh_size, mesh_size)
+            last_B["B"], last_B["ps"], last_B["mesh"] = Bn.copy(), np.array(poll_scale, dtype=float).copy(), mesh_size
+            M = (Bn * poll_scale)[:dim_x]
+            if Bn.shape != (2 * dim_x, dim_x) or not np.allclose(Bn[dim_x:], -Bn[:dim_x]):
+                mon.viol.add("C14.plus_minus_pairs", key)
+            if abs(np.linalg.det(M)) < 1e-9 or not np.allclose(M, np.round(M)):
+                mon.viol.add("C14.nonsingular_integer_basis", key, M=jsonable(M))
+            if search_mesh_size <= mesh_size and not np.allclose(np.sort(np.abs(M), axis=None)[-dim_x:], 1) :
+                mon.viol.add("C14.default_signed_coordinate_directions", key, M=jsonable(M))
+            return Bn
+
+        self.patch(bads_mod, "poll_mads_2n", pm)
 
         def poll(b, gp):
             k0 = b.mesh_size_integer
@@ -235,7 +253,22 @@ class Monitors:
             suff = float(np.asarray(b.sufficient_improvement).item())
             it = b.optim_state["iter"]
             fc0 = b.function_logger.func_count
+            u0 = np.array(b.u, dtype=float).copy()
+            n0 = b.function_logger.Xn
             r = orig_poll(b, gp)
+            if "B" in last_B and b.function_logger.Xn > n0 and not b.function_logger.he_noise_flag:
+                dirs = (last_B["B"] * last_B["mesh"]) * last_B["ps"]
+                pts = b.function_logger.X[n0 + 1: b.function_logger.Xn + 1]
+                seen_dirs = []
+                for pnt in pts:
+                    d = np.abs(u0 + dirs - pnt).max(axis=1)
+                    jmin = int(np.argmin(d))
+                    if d[jmin] > 1e-9 * max(1.0, np.abs(pnt).max()):
+                        mon.viol.add("C14.polled_point_is_incumbent_plus_mesh_times_direction", key, point=jsonable(pnt), incumbent=jsonable(u0), mesh=float(last_B["mesh"]))
+                        break
+                    if jmin in seen_dirs:
+                        mon.viol.add("C14.each_direction_at_most_once", key)
+                    seen_dirs.append(jmin)
             k1 = b.mesh_size_integer
             f_best = r[1]
             mon.count("polls")
@@ -304,6 +337,105 @@ class Monitors:
         import pybads.function_logger as flpkg
         if hasattr(flpkg, "contraints_check"):
             self.patch(flpkg, "contraints_check", cc)
+        # --- C15: every GP training set consists of logged pairs (variance = logged SD squared); incremental add -------
+        orig_lgf = bads_mod.local_gp_fitting
+
+        def lgf(gp, current_point, function_logger, options, optim_state, iteration_history, refit_flag):
+            r = orig_lgf(gp, current_point, function_logger, options, optim_state, iteration_history, refit_flag)
+            g = r[0]
+            mon.count("gp_fits")
+            fl = function_logger
+            m = fl.X_max_idx + 1
+            LX, LY = fl.X[:m], fl.Y[:m]
+            for k in range(len(g.X)):
+                rows = [i for i in range(m) if np.array_equal(LX[i], g.X[k]) and LY[i, 0] == np.asarray(g.y).reshape(-1)[k]]
+                if not rows:
+                    mon.viol.add("C15.training_pairs_are_logged_evaluations", key, row=int(k))
+                    break
+                if fl.noise_flag and g.s2 is not None and np.size(g.s2) == len(g.X):
+                    if not any(np.isclose(np.asarray(g.s2).reshape(-1)[k], fl.S[i, 0] ** 2, rtol=1e-10, equal_nan=True) for i in rows):
+                        mon.viol.add("C15.training_pairs_are_logged_evaluations", key, what="noise is not the logged SD squared", row=int(k),
+                                     got=float(np.asarray(g.s2).reshape(-1)[k]), logged_sd=[float(fl.S[i, 0]) for i in rows], s2_shape=list(np.shape(g.s2)), n=int(len(g.X)))
+                        break
+            return r
+
+        self.patch(bads_mod, "local_gp_fitting", lgf)
+        orig_add = bads_mod.add_and_update_gp
+
+        def add(function_logger, gp, x_new, y_new, sd_new=None, options=None):
+            n0 = len(gp.X)
+            g = orig_add(function_logger, gp, x_new, y_new, sd_new, options)
+            mon.count("gp_adds")
+            fl = function_logger
+            i = fl.Xn
+            if len(g.X) != n0 + 1 or not np.array_equal(g.X[-1], np.asarray(x_new).reshape(-1)):
+                mon.viol.add("C15.appends_exactly_the_new_pair", key)
+            rows = [j for j in range(fl.X_max_idx + 1) if np.array_equal(fl.X[j], g.X[-1])]
+            if not rows or not any(fl.Y[j, 0] == np.asarray(g.y).reshape(-1)[-1] or fl.n_evals[j, 0] > 1 for j in rows):
+                mon.viol.add("C15.added_pair_is_the_evaluation_just_logged", key, logged_row=int(i))
+            if options["specify_target_noise"] and sd_new is not None and g.s2 is not None and np.size(g.s2) == len(g.X):
+                if not np.isclose(np.asarray(g.s2).reshape(-1)[-1], float(sd_new) ** 2, rtol=1e-10):
+                    mon.viol.add("C15.supplied_noise_enters_as_variance", key, got=float(np.asarray(g.s2).reshape(-1)[-1]), sd=float(sd_new))
+            return g
+
+        self.patch(bads_mod, "add_and_update_gp", add)
+        # --- C18: the ES proposal is the acquisition minimum of the surviving candidates; hedge probabilities ------
+        rec = {"on": False, "c": [], "z": []}
+        es_cc = es_mod.contraints_check  # already the monitored filter
+        es_acq = es_mod.acq_fcn_lcb
+
+        def cc18(*a, **k):
+            R = es_cc(*a, **k)
+            if rec["on"]:
+                rec["c"].append(np.array(R, copy=True))
+            return R
+
+        def acq18(*a, **k):
+            r = es_acq(*a, **k)
+            if rec["on"]:
+                rec["z"].append(np.array(r[0], copy=True).flatten())
+            return r
+
+        self.patch(es_mod, "contraints_check", cc18)
+        self.patch(es_mod, "acq_fcn_lcb", acq18)
+        orig_es = es_mod.ESSearch.__call__
+
+        def es_call(s, u, lb, ub, func_logger, gp, optim_state, sum_rule=True, non_box_cons=None):
+            rec["on"], rec["c"], rec["z"] = True, [], []
+            try:
+                us, z = orig_es(s, u, lb, ub, func_logger, gp, optim_state, sum_rule, non_box_cons)
+            finally:
+                rec["on"] = False
+            mon.count("es_searches")
+            C = np.vstack(rec["c"]) if rec["c"] else np.zeros((0, len(np.atleast_1d(us))))
+            Z = np.concatenate(rec["z"]) if rec["z"] else np.zeros(0)
+            if len(C) == len(Z) and len(Z):
+                zz = float(np.asarray(z).item())
+                hit = [k for k in range(len(C)) if np.array_equal(C[k], us)]
+                if not hit or not any(Z[k] == zz for k in hit):
+                    mon.viol.add("C18.proposal_is_a_surviving_candidate", key, z=zz)
+                elif zz > Z.min():
+                    mon.viol.add("C18.proposal_has_lowest_acquisition", key, z=zz, best=float(Z.min()))
+                if np.any(C < optim_state["lb_search"]) or np.any(C > optim_state["ub_search"]):
+                    mon.viol.add("C18.all_candidates_in_mesh_rounded_box", key)
+            return us, z
+
+        self.patch(es_mod.ESSearch, "__call__", es_call)
+        import pybads.search.search_hedge as hedge_mod
+        orig_hedge = hedge_mod.ESSearchHedge.__call__
+
+        def hedge_call(h, *a, **k):
+            try:
+                return orig_hedge(h, *a, **k)
+            finally:
+                p_ = np.asarray(getattr(h, "prob", [1.0]), dtype=float)
+                mon.count("hedge_draws")
+                if abs(p_.sum() - 1) > 1e-12:
+                    mon.viol.add("C18.probabilities_sum_to_one", key, prob=p_.tolist())
+                if np.any(p_ < h.gamma - 1e-15):
+                    mon.viol.add("C18.probabilities_at_least_floor", key, prob=p_.tolist())
+
+        self.patch(hedge_mod.ESSearchHedge, "__call__", hedge_call)
 
 
 def check_run(p, b, con, target, res, viol, key, exc=None):
